@@ -104,22 +104,16 @@ def criterion(strategy, c, beta=None):
 
 
 def constrained_ok(cuts, c, obj, con, min_rate):
-  """Best `obj` rate among cut-offs whose `con` rate is >= min_rate.  A
-  rate that equals min_rate as a rational (e.g. 1/5 vs the float 0.2, which
-  is not exactly 1/5) is on a boundary that floating point cannot decide:
-  both readings (boundary cut-offs feasible / infeasible) are accepted."""
-  r = Fraction(str(min_rate))
-  strict = [x for x in cuts if criterion(con, x) > r]
-  loose = [x for x in cuts if criterion(con, x) >= r]
+  """Best `obj` rate among cut-offs whose `con` rate is >= min_rate.  Rates
+  are ratios of counts; "k of n" meets a min_rate written as the float k / n
+  (1 of 10 meets 0.1): the ratio, correctly rounded to a double, is compared
+  with the double the caller passed."""
+  m = float(min_rate)
+  feas = [x for x in cuts if float(criterion(con, x)) >= m]
   bests = set()
-  if strict:
-    bests.add(max(criterion(obj, x) for x in strict))
-  if loose:
-    bests.add(max(criterion(obj, x) for x in loose))
-  exact_repr = Fraction(float(min_rate)) == r
-  if exact_repr:      # 0, 0.5, 1: no ambiguity, boundary is feasible
-    bests = {max(criterion(obj, x) for x in loose)}
-  ok = criterion(con, c) >= r and criterion(obj, c) in bests
+  if feas:
+    bests.add(max(criterion(obj, x) for x in feas))
+  ok = float(criterion(con, c)) >= m and criterion(obj, c) in bests
   return ok, sorted(bests)
 
 
@@ -217,6 +211,15 @@ def run_case(spec, j):
     combos += [('f_beta', {'beta': b}) for b in BETAS]
     combos += [('max_tpr', {'min_rate': r}) for r in RATES]
     combos += [('max_tnr', {'min_rate': r}) for r in RATES]
+    # rates that a cut-off attains exactly (k negatives of n kept apart:
+    # min_rate = k / n as the caller would write it, e.g. 0.1 for 1 of 10)
+    n_neg_, n_pos_ = int((y != 1).sum()), int((y == 1).sum())
+    for k_ in sorted(set([1, n_neg_ // 3, n_neg_ - 1]) - {0}):
+      if 0 < k_ <= n_neg_:
+        combos.append(('max_tpr', {'min_rate': k_ / n_neg_}))
+    for k_ in sorted(set([1, n_pos_ // 3, n_pos_ - 1]) - {0}):
+      if 0 < k_ <= n_pos_:
+        combos.append(('max_tnr', {'min_rate': k_ / n_pos_}))
     for strat, kw in combos:
       with Quiet():
         try:
@@ -259,9 +262,16 @@ def run_case(spec, j):
                     ('max_tpr', {'min_rate': 0.5}),
                     ('max_tnr', {'min_rate': 0.5})):
     e2 = clone(est)
+    # one dict serves several fits (a parameter grid, a refit loop): the
+    # model judged is that of the *second* fit given the same dict object
+    cp = dict(kw, strategy=strat)
     with Quiet():
       try:
-        e2.fit(pairs, lab, calibration_params=dict(kw, strategy=strat))
+        clone(est).fit(pairs, lab, calibration_params=cp)
+        j.check('C16.via-fit.params-dict-untouched',
+                cp == dict(kw, strategy=strat),
+                dict(det0, strategy=strat, after=repr(cp)))
+        e2.fit(pairs, lab, calibration_params=cp)
         D = e2.pair_distance(pairs)
         pred = e2.predict(pairs)
       except Exception as e:
